@@ -1,7 +1,13 @@
 From Coq Require Import Reals List Lra Lia Arith Ratan R_sqrt.
-From Outrank Require Import Common.RSum MI.MIineq.
+From Outrank Require Import Common.RSum.
 Import ListNotations.
 Open Scope R_scope.
+
+(* local copy (the MI library has the same lemma; C20 stays independent of it) *)
+Lemma rsum_const_l {A} (k : R) (l : list A) : rsum (fun _ => k) l = INR (length l) * k.
+Proof.
+  induction l as [|a r IH]; [cbn; lra|]. rewrite rsum_cons, IH. cbn [length]. rewrite S_INR. lra.
+Qed.
 
 Section Corr.
   Variable n : nat.
@@ -26,7 +32,7 @@ Section Corr.
   Lemma vsum_lin a b (u v : vec) : vsum (fun i => a * u i + b * v i) = a * vsum u + b * vsum v.
   Proof. unfold vsum. rewrite <- !rsum_scal, <- rsum_plus. reflexivity. Qed.
   Lemma vsum_const k : vsum (fun _ => k) = INR n * k.
-  Proof. unfold vsum, idx. rewrite rsum_const, seq_length. reflexivity. Qed.
+  Proof. unfold vsum, idx. rewrite rsum_const_l, seq_length. reflexivity. Qed.
 
   Variables u v : vec.
   Hypothesis Hu0 : vsum u = 0.
@@ -90,4 +96,163 @@ Proof.
     rewrite sqrt_sqrt by lra. field. lra. }
   rewrite E, sqrt_inv. unfold c. field. lra.
 Qed.
-Print Assumptions pearson_wt.
+
+(* pearson only looks at the entries 0..n-1 *)
+Lemma vsum_ext n (u u' : vec) : (forall i, In i (idx n) -> u i = u' i) -> vsum n u = vsum n u'.
+Proof. intros H. unfold vsum. apply rsum_ext_in. exact H. Qed.
+Lemma dot_ext n (u u' v v' : vec) :
+  (forall i, In i (idx n) -> u i = u' i) -> (forall i, In i (idx n) -> v i = v' i) -> dot n u v = dot n u' v'.
+Proof. intros H1 H2. unfold dot. apply rsum_ext_in. intros i Hi. rewrite (H1 i Hi), (H2 i Hi). reflexivity. Qed.
+Lemma centre_ext n (u u' : vec) : (forall i, In i (idx n) -> u i = u' i) -> forall i, In i (idx n) -> centre n u i = centre n u' i.
+Proof. intros H i Hi. unfold centre, mean. rewrite (vsum_ext n u u' H), (H i Hi). reflexivity. Qed.
+Lemma pearson_ext n (f f' g g' : vec) :
+  (forall i, In i (idx n) -> f i = f' i) -> (forall i, In i (idx n) -> g i = g' i) -> pearson n f g = pearson n f' g'.
+Proof.
+  intros Hf Hg. unfold pearson.
+  rewrite (dot_ext n (centre n f) (centre n f') (centre n g) (centre n g')) by (apply centre_ext; assumption).
+  rewrite (dot_ext n (centre n f) (centre n f') (centre n f) (centre n f')) by (apply centre_ext; assumption).
+  rewrite (dot_ext n (centre n g) (centre n g') (centre n g) (centre n g')) by (apply centre_ext; assumption).
+  reflexivity.
+Qed.
+
+(* C20_corr: the algebra of the orthogonal-projection construction *)
+Theorem corr_cot n (Hn : (0 < n)%nat) (u v : vec) r a b :
+  vsum n u = 0 -> vsum n v = 0 -> dot n u u = 1 -> dot n v v = 1 -> dot n u v = 0 ->
+  -1 < r < 1 -> 0 < a ->
+  pearson n (fun i => v i + cos (acos r) / sin (acos r) * u i) (fun i => a * u i + b) = r.
+Proof.
+  intros Hu0 Hv0 Huu Hvv Huv Hr Ha.
+  pose proof (pearson_wt n Hn u v Hu0 Hv0 Huu Hvv Huv (r / sqrt (1 - r * r)) a b Ha) as H.
+  rewrite (corr_value r Hr) in H. rewrite (cot_acos r Hr).
+  etransitivity; [|exact H]. apply pearson_ext; intros i _; unfold w, t; lra.
+Qed.
+
+(* the code writes 1 / tan(theta); for r <> 0 this is the cotangent *)
+Lemma inv_tan_cot x : cos x <> 0 -> sin x <> 0 -> 1 / tan x = cos x / sin x.
+Proof. intros Hc Hs. unfold tan. field. split; assumption. Qed.
+
+Theorem corr_tan n (Hn : (0 < n)%nat) (u v : vec) r a b :
+  vsum n u = 0 -> vsum n v = 0 -> dot n u u = 1 -> dot n v v = 1 -> dot n u v = 0 ->
+  -1 < r < 1 -> r <> 0 -> 0 < a ->
+  pearson n (fun i => v i + 1 / tan (acos r) * u i) (fun i => a * u i + b) = r.
+Proof.
+  intros Hu0 Hv0 Huu Hvv Huv Hr Hr0 Ha.
+  assert (Hc : cos (acos r) <> 0) by (rewrite cos_acos by lra; exact Hr0).
+  assert (Hs : sin (acos r) <> 0).
+  { rewrite sin_acos by lra. assert (0 < sqrt (1 - Rsqr r)); [|lra]. apply sqrt_lt_R0. unfold Rsqr. nra. }
+  rewrite (inv_tan_cot _ Hc Hs). apply corr_cot; assumption.
+Qed.
+
+(* ------------------------------------------------------------------------------------------ *)
+(* The construction of generate_correlated over R, step by step as the code performs it:
+     t_standard = (t - mean t) / kappa                  kappa = std(t) + 1e-10 > 0 (any positive number)
+     z          = the (standardised) random vector      (any vector)
+     M_centred  = [centre t_standard, centre z]
+     Q          = first column / its norm               (QR of one column; the sign of Q cancels in Q Q^T)
+     proj       = (I - Q Q^T) M_centred[:,1]
+     Y          = columns of [M_centred[:,0], proj] scaled to unit norm
+     corr       = Y[:,1] + cot(acos r) * Y[:,0]
+   Hypotheses: the source is not constant and z is not an affine function of it (the two norms are non-zero). *)
+Section Construct.
+  Variable n : nat.
+  Hypothesis Hn : (0 < n)%nat.
+  Variables src z : vec.
+  Variables kappa r : R.
+  Hypothesis Hk : 0 < kappa.
+  Hypothesis Hr : -1 < r < 1.
+
+  Definition nrm (x : vec) : R := sqrt (dot n x x).
+  Definition t_standard : vec := fun i => (src i - mean n src) / kappa.
+  Definition m0 : vec := centre n t_standard.
+  Definition m1 : vec := centre n z.
+  Definition y0 : vec := fun i => m0 i / nrm m0.
+  Definition proj : vec := fun i => m1 i - dot n y0 m1 * y0 i.
+  Definition y1 : vec := fun i => proj i / nrm proj.
+  Definition corr_feature : vec := fun i => y1 i + cos (acos r) / sin (acos r) * y0 i.
+
+  Hypothesis Hsrc : 0 < dot n m0 m0.
+  Hypothesis Hz : 0 < dot n proj proj.
+
+  Lemma dot_scal_l k (u v : vec) : dot n (fun i => k * u i) v = k * dot n u v.
+  Proof. unfold dot. rewrite <- rsum_scal. apply rsum_ext_in. intros; lra. Qed.
+  Lemma dot_scal_r k (u v : vec) : dot n u (fun i => k * v i) = k * dot n u v.
+  Proof. rewrite dot_comm, dot_scal_l, dot_comm. reflexivity. Qed.
+  Lemma dot_sub_r (u v w : vec) : dot n u (fun i => v i - w i) = dot n u v - dot n u w.
+  Proof. unfold dot. rewrite <- rsum_minus. apply rsum_ext_in. intros; lra. Qed.
+  Lemma vsum_scal k (u : vec) : vsum n (fun i => k * u i) = k * vsum n u.
+  Proof. unfold vsum. rewrite <- rsum_scal. reflexivity. Qed.
+  Lemma vsum_sub (u v : vec) : vsum n (fun i => u i - v i) = vsum n u - vsum n v.
+  Proof. unfold vsum. rewrite <- rsum_minus. reflexivity. Qed.
+  Lemma vsum_centre (u : vec) : vsum n (centre n u) = 0.
+  Proof.
+    unfold centre. rewrite vsum_sub, vsum_const. unfold mean. field. pose proof (n_pos n Hn). lra.
+  Qed.
+
+  Lemma nrm_m0_pos : 0 < nrm m0. Proof. apply sqrt_lt_R0. exact Hsrc. Qed.
+  Lemma nrm_proj_pos : 0 < nrm proj. Proof. apply sqrt_lt_R0. exact Hz. Qed.
+  Lemma nrm_sq (x : vec) : 0 < dot n x x -> nrm x * nrm x = dot n x x.
+  Proof. intros H. unfold nrm. apply sqrt_sqrt. lra. Qed.
+
+  Lemma y0_sum : vsum n y0 = 0.
+  Proof.
+    unfold y0. erewrite vsum_ext by (intros i _; unfold Rdiv; rewrite Rmult_comm; reflexivity).
+    rewrite vsum_scal. unfold m0. rewrite vsum_centre. lra.
+  Qed.
+  Lemma y0_unit : dot n y0 y0 = 1.
+  Proof.
+    unfold y0. erewrite dot_ext by (intros i _; unfold Rdiv; rewrite Rmult_comm; reflexivity).
+    rewrite dot_scal_l, dot_scal_r. pose proof nrm_m0_pos. rewrite <- (nrm_sq m0 Hsrc). field. lra.
+  Qed.
+  Lemma proj_sum : vsum n proj = 0.
+  Proof. unfold proj. rewrite vsum_sub, vsum_scal, y0_sum. unfold m1. rewrite vsum_centre. lra. Qed.
+  Lemma y0_proj : dot n y0 proj = 0.
+  Proof. unfold proj. rewrite dot_sub_r, dot_scal_r, y0_unit. lra. Qed.
+  Lemma y1_sum : vsum n y1 = 0.
+  Proof.
+    unfold y1. erewrite vsum_ext by (intros i _; unfold Rdiv; rewrite Rmult_comm; reflexivity).
+    rewrite vsum_scal, proj_sum. lra.
+  Qed.
+  Lemma y1_unit : dot n y1 y1 = 1.
+  Proof.
+    unfold y1. erewrite dot_ext by (intros i _; unfold Rdiv; rewrite Rmult_comm; reflexivity).
+    rewrite dot_scal_l, dot_scal_r. pose proof nrm_proj_pos. rewrite <- (nrm_sq proj Hz). field. lra.
+  Qed.
+  Lemma y0_y1 : dot n y0 y1 = 0.
+  Proof.
+    unfold y1. rewrite (dot_ext n y0 y0 (fun i => proj i / nrm proj) (fun i => / nrm proj * proj i))
+      by (intros i _; try reflexivity; unfold Rdiv; apply Rmult_comm).
+    rewrite dot_scal_r, y0_proj. lra.
+  Qed.
+
+  (* the source is a positive affine image of Y[:,0]: the regulariser and both normalisations only rescale *)
+  Lemma src_affine i : src i = (kappa * nrm m0) * y0 i + mean n src.
+  Proof.
+    assert (Hm : mean n t_standard = 0).
+    { unfold mean, t_standard. erewrite vsum_ext by (intros j _; unfold Rdiv; rewrite Rmult_comm; reflexivity).
+      rewrite vsum_scal. change (fun i0 => src i0 - mean n src) with (centre n src). rewrite vsum_centre. unfold Rdiv. ring. }
+    assert (E : m0 i = (src i - mean n src) / kappa) by (unfold m0, centre; rewrite Hm; unfold t_standard; lra).
+    pose proof nrm_m0_pos as HN. unfold y0. rewrite E. set (N := nrm m0) in *. field. split; lra.
+  Qed.
+
+  Theorem construction : pearson n corr_feature src = r.
+  Proof.
+    rewrite (pearson_ext n corr_feature (fun i => y1 i + cos (acos r) / sin (acos r) * y0 i)
+                         src (fun i => (kappa * nrm m0) * y0 i + mean n src)).
+    - apply corr_cot; try assumption.
+      + exact y0_sum.
+      + exact y1_sum.
+      + exact y0_unit.
+      + exact y1_unit.
+      + exact y0_y1.
+      + pose proof nrm_m0_pos. nra.
+    - intros i _. reflexivity.
+    - intros i _. apply src_affine.
+  Qed.
+End Construct.
+
+(* non-vacuity of the hypotheses of corr_cot: two centred orthonormal vectors of length 4 *)
+Example corr_hyp_sat :
+  let u : vec := fun i => match i with 0%nat | 1%nat => 1 / 2 | _ => - (1 / 2) end in
+  let v : vec := fun i => match i with 0%nat | 2%nat => 1 / 2 | _ => - (1 / 2) end in
+  vsum 4 u = 0 /\ vsum 4 v = 0 /\ dot 4 u u = 1 /\ dot 4 v v = 1 /\ dot 4 u v = 0.
+Proof. unfold vsum, dot, idx. cbn [seq rsum fold_right]. repeat split; lra. Qed.
